@@ -25,8 +25,9 @@ ASSUMPTIONS = [
     "protocol misuse in manual mode (advance / finish before start, start twice) raises the documented RuntimeError",
 ]
 
-START, END = "S0", "E9"
-MSGS = {"M1": "M1", "M2": "M2-longer"}
+# messages are shown verbatim, also when they look like the placeholders of the indicator's own format
+START, END = "S0", "E9 {elapsed}"
+MSGS = {"M1": "M1", "M2": "M2-longer {elapsed:6s} {indicator} {message}"}
 VALUES = ["-", "\\", "|", "/"]
 
 
@@ -202,7 +203,7 @@ def check_manual(ctx, case, by_construction=False):
         current = 0
         last_advance_frame = None
         nt = False
-        messages = ["S0", "E9", "M1", "M2-longer"]
+        messages = [START, END] + list(MSGS.values())
         rx = frame_re(messages)
         for i, op in enumerate(case["ops"]):
             mark = len(stream.log)
@@ -214,8 +215,8 @@ def check_manual(ctx, case, by_construction=False):
                     continue
                 if k == "start":
                     want_error = started
-                    ind.start("S0")
-                    started, message, current = True, "S0", 0
+                    ind.start(START)
+                    started, message, current = True, START, 0
                     last_advance_frame = clock.now
                 elif k == "advance":
                     want_error = not started
@@ -225,8 +226,8 @@ def check_manual(ctx, case, by_construction=False):
                     message = MSGS[op[1]]
                 elif k == "finish":
                     want_error = not started
-                    ind.finish("E9")
-                    started, message = False, "E9"
+                    ind.finish(END)
+                    started, message = False, END
             except RuntimeError as e:
                 if not want_error:
                     ctx.fail("manual", "C19.manual-frame", case, "operation accepted", {"op": i}, exc=e)
